@@ -9,8 +9,8 @@ pub fn get_fee_denom(deps: Deps) -> StdResult<FeeDenomResponse> {
     let fee_denom: FeeDenom = FEE_DENOM.load(deps.storage)?;
 
     let (name, next_change) = match fee_denom {
-        FeeDenom::JUNO(x) => ("JUNO".to_string(), x),
-        FeeDenom::USDC(y) => ("USDC".to_string(), y),
+        FeeDenom::JUNO(x) => ("JUNO".to_string(), x.saturating_add(604800)),
+        FeeDenom::USDC(y) => ("USDC".to_string(), y.saturating_add(604800)),
     };
 
     Ok(FeeDenomResponse {
